@@ -107,7 +107,7 @@ Definition model_trace (vocab : Z) (cfg : config) (parallel : nat) (ops : list o
 
 (** pure parts, also used for llamarunner's copy of the same functions *)
 Definition chk_shift_discard (nctx inputLen numKeep r : Z) : bool :=
-  shift_discard (mkCfg nctx 1 false true true true (-1)) inputLen numKeep =? r.
+  shift_discard (mkCfg nctx 1 false true true true (-1) None) inputLen numKeep =? r.
 Definition chk_common_prefix (a b : list tok) (r : nat) : bool := (common_prefix a b =? r)%nat.
 
 (** slot choice on a hand-made InputCache without a KV cache (as the packages' own tests do):
